@@ -302,6 +302,32 @@ class Mirror:
                 return False
             self.bases = g
             return True
+        if k in ("setsheet", "setpath", "delspec"):
+            if m in self.closed:
+                return False
+            sp = self.get_spec(m, o["v"])
+            if sp is None:
+                return False
+            io = self.io_of(sp["id"])
+            if k == "delspec":
+                self.del_spec(sp["id"])
+                return True
+            if k == "setpath":
+                if o["p"] == io["path"]:
+                    return True
+                if self.find_io(m, o["p"]):
+                    return False
+                io["path"] = o["p"]
+                return True
+            if io["kind"] == "module":
+                return False
+            others = [c for c in io["specs"] if c["id"] != sp["id"]]
+            if others and o["sh"] is None:
+                return False
+            if any(c["sheet"] == o["sh"] for c in others):
+                return False
+            sp["sheet"] = o["sh"]
+            return True
         if k == "close":
             if m in self.closed:
                 return False
@@ -371,6 +397,18 @@ class Mirror:
                 g[(m, s)] = [x for x in old if x != b]
                 if self.graph_ok(g, m, s) is None:
                     return "remove_breaks_mro"
+        if k == "setsheet":
+            sp = self.get_spec(m, o["v"])
+            if sp is not None:
+                io = self.io_of(sp["id"])
+                if io["kind"] == "module":
+                    return "sheet_on_module"   # ModuleData has no sheet property: plain attribute assignment
+                if o["sh"] is None and len(io["specs"]) > 1:
+                    return "sheet_none"
+                if o["sh"] is None and sp["sheet"] is not None and io["kind"] == "excel":
+                    return "sheet_to_none"     # read_args keeps sheet_name=None: read_excel returns a dict
+                if o["sh"] in (8, 9):
+                    return "emptysheet_or_abspath"
         if k == "delref" and (m, o["s"], o["n"]) in self.cells:
             return "del_cells"               # deletes the cells: outside the vocabulary
         if k == "delref" and o["s"] is None and (m, o["n"]) in self.spaces:
